@@ -339,6 +339,15 @@ def _boundary(ck, p, byk):
                         var_reads += 1
                     else:
                         reads.setdefault(c, set()).add(sx["lhs"][0] if len(sx["lhs"]) == 1 else None)
+        # source.get(k) / first() etc. with a constant index also look at that position
+        for bi, t in g.calls():
+            if method(t) in ("get", "get_unchecked") and len(t["args"]) > 1 and ("arg", 1) in flatten(pv.trace_operand(t["args"][0])):
+                pl = place_of(t["args"][1])
+                c = _const_of(g, pv, pl[0]) if pl else (int(t["args"][1]["k"]["int"]) if "k" in t["args"][1] and "int" in t["args"][1]["k"] else None)
+                if c is None:
+                    var_reads += 1
+                else:
+                    reads.setdefault(c, set()).add(t["dest"][0] if len(t["dest"]) == 1 else None)
         # returned constant token lengths
         rets = set()
         for b in g.blocks:
